@@ -187,4 +187,118 @@ theorem read_applyActs_absent (d : Dir) (acts : List RelAction) (hnd : (acts.map
       · have : (d, n) ≠ (d, a.name) := fun e => h (by injection e with _ e2; exact e2.symm)
         simp [h, read_write_other _ _ _ _ _ this]
 
+/-! ## facts about the generators' plans -/
+
+theorem pure_flags {sem : Semantics} (hp : pureGen sem = true) :
+    sem.genMode = .truncate ∧ sem.resetFieldDefs = true ∧ sem.resetContexts = true ∧ sem.resetCounter = true
+      ∧ sem.rebindContexts = true ∧ sem.freshTypeTables = true := by
+  simp [pureGen] at hp
+  obtain ⟨⟨⟨⟨⟨h1, h2⟩, h3⟩, h4⟩, h5⟩, h6⟩ := hp
+  exact ⟨h1, h2, h3, h4, h5, h6⟩
+
+/-- with reset-at-start semantics the outcome and everything written are independent of the process state -/
+theorem planGen_snd_indep (sem : Semantics) (hp : pureGen sem = true) (st : ProcState) (i : Inv) :
+    (planGen sem st i).2 = (planGen sem st0 i).2 := by
+  obtain ⟨_, h2, h3, h4, _, h6⟩ := pure_flags hp
+  cases i with
+  | soup impl spec o =>
+    simp only [planGen, planSoup, h2, if_true]
+    split
+    · rfl
+    · split <;> rfl
+  | fix spec o =>
+    simp only [planGen, planFix, typesFor, h3, h4, h6, if_true]
+    cases tableOf spec.version with
+    | error e => rfl
+    | ok tbl =>
+      simp only []
+      cases resolveTypes tbl (declared spec) with
+      | error e => rfl
+      | ok resolved =>
+        simp only []
+        split <;> rfl
+  | asn1 spec pdu pk o => rfl
+  | newProject t n a => rfl
+  | userEdit p n => rfl
+
+/-- the generators never touch the table of live generator objects while planning -/
+theorem planGen_gens (sem : Semantics) (st : ProcState) (i : Inv) : (planGen sem st i).1.gens = st.gens := by
+  cases i with
+  | soup impl spec o =>
+    simp only [planGen, planSoup]
+    split
+    · rfl
+    · split <;> rfl
+  | fix spec o =>
+    simp only [planGen, planFix]
+    split
+    · rfl
+    · split
+      · rfl
+      · split <;> rfl
+  | asn1 spec pdu pk o => rfl
+  | newProject t n a => rfl
+  | userEdit p n => rfl
+
+theorem planGen_acts_trunc (sem : Semantics) (hp : pureGen sem = true) (st : ProcState) (i : Inv) (rp : RelPlan)
+    (h : (planGen sem st i).2 = .ok rp) : truncOnly rp.acts = true := by
+  obtain ⟨h1, _, _, _, _, _⟩ := pure_flags hp
+  cases i with
+  | soup impl spec o =>
+    simp only [planGen, planSoup] at h
+    split at h
+    · cases h
+    · split at h
+      · cases h
+      · injection h with h; subst h
+        cases o.init <;> simp [truncOnly, h1]
+  | fix spec o =>
+    simp only [planGen, planFix] at h
+    split at h
+    · cases h
+    · split at h
+      · cases h
+      · split at h
+        · cases h
+        · injection h with h; subst h
+          cases o.init <;> simp [truncOnly, h1]
+  | asn1 spec pdu pk o =>
+    simp only [planGen, planAsn1] at h
+    injection h with h; subst h
+    cases o.init <;> simp [truncOnly, h1, List.all_map]
+  | newProject t n a => simp only [planGen] at h; injection h with h; subst h; rfl
+  | userEdit p n => simp only [planGen] at h; injection h with h; subst h; rfl
+
+/-- the files a generator writes are the syntactic `targetNames` (for every semantics and state) -/
+theorem planGen_acts_names (sem : Semantics) (st : ProcState) (i : Inv) (hg : i.isGen = true) (rp : RelPlan)
+    (h : (planGen sem st i).2 = .ok rp) : rp.acts.map (·.name) = targetNames i := by
+  cases i with
+  | soup impl spec o =>
+    obtain ⟨app, pfx, init, dir, ov⟩ := o
+    simp only [planGen, planSoup] at h
+    split at h
+    · cases h
+    · split at h
+      · cases h
+      · injection h with h; subst h
+        cases init <;> simp [targetNames]
+  | fix spec o =>
+    obtain ⟨app, pfx, init, dir, ov⟩ := o
+    simp only [planGen, planFix] at h
+    split at h
+    · cases h
+    · split at h
+      · cases h
+      · split at h
+        · cases h
+        · injection h with h; subst h
+          cases init <;> simp [targetNames]
+  | asn1 spec pdu pk o =>
+    obtain ⟨app, pfx, init, dir, ov⟩ := o
+    simp only [planGen, planAsn1] at h
+    injection h with h; subst h
+    cases init <;> simp [targetNames, Function.comp_def]
+  | newProject t n a => simp [Inv.isGen] at hg
+  | userEdit p n => simp [Inv.isGen] at hg
+
 end NasdaqModel.GenHistory
